@@ -111,6 +111,18 @@ func (g *genState) obj() int {
 	return g.r.Range(1, g.objs)
 }
 
+// recent: one of the last few tunnels (more likely to be alive)
+func (g *genState) recent() int {
+	if g.objs < 2 || g.r.Chance(1, 5) {
+		return g.obj()
+	}
+	lo := g.objs - 3
+	if lo < 1 {
+		lo = 1
+	}
+	return g.r.Range(lo, g.objs)
+}
+
 func (g *genState) remoteIdx() int { return 1 + g.r.Intn(6) }
 
 func (g *genState) time() int {
@@ -176,8 +188,11 @@ func (g *genState) op() {
 		g.emit("pdel %d", g.obj())
 	case c < 90:
 		g.emit("prim %d", g.obj())
+	case c < 97:
+		// type: 1 forwarding, 2 terminal; state: 0 requested, 1 peer requested, 2 established
+		g.emit("relay %d %d %d %d %s", g.recent(), g.addr(), hlib.Pick(r, 1, 1, 2), hlib.Pick(r, 0, 1, 2, 2), g.stream())
 	default:
-		g.emit("relay %d %d %s", g.obj(), g.addr(), g.stream())
+		g.emit("relayto %d %d", g.recent(), g.addr())
 	}
 }
 
@@ -195,6 +210,52 @@ func gen(r *hlib.Rand, n int, tier, profile string, emit func(string, ...any)) {
 		k := r.Range(20, 90)
 		// a burst of responder handshakes for one address early on, so that the per-address cap is exceeded
 		burst := r.Chance(1, 2)
+		if r.Chance(1, 3) {
+			// relay scenario on fresh, predictable ids: tunnels 1..m to the relay host (address 1), then tunnels to the
+			// peer (address 2) that is reached through it; relay entries on both sides, sometimes the same peer twice
+			// (a superseded relay index), then deletes of the peer's tunnels (the last one is final and disestablishes)
+			burst = false
+			m := r.Range(1, 3)
+			id := 0
+			for j := 0; j < m; j++ {
+				id++
+				g.pkt++
+				emit("resp 1 %d %d %d %d", g.remoteIdx(), g.pkt, g.time(), 1000+id)
+			}
+			p := r.Range(1, 2)
+			first := id + 1
+			for j := 0; j < p; j++ {
+				id++
+				g.pkt++
+				emit("resp %s %d %d %d %d", hlib.Pick(r, "2", "2", "2,3"), g.remoteIdx(), g.pkt, g.time(), 1000+id)
+			}
+			g.objs = id
+			total += id
+			for j := 1; j <= m; j++ {
+				if r.Chance(3, 4) {
+					emit("relay %d 2 %d %d %s", j, hlib.Pick(r, 1, 2), hlib.Pick(r, 0, 2, 2), g.stream())
+					total++
+				}
+				if r.Chance(1, 3) {
+					emit("relay %d 2 %d %d %s", j, hlib.Pick(r, 1, 2), hlib.Pick(r, 0, 2, 2), g.stream())
+					total++
+				}
+			}
+			for j := first; j <= id; j++ {
+				emit("relayto %d 1", j)
+				total++
+				if r.Chance(1, 2) {
+					emit("relay %d %d 1 %d %s", j, hlib.Pick(r, 1, 3), hlib.Pick(r, 0, 2), g.stream())
+					total++
+				}
+			}
+			for j := first; j <= id; j++ {
+				if r.Chance(3, 4) {
+					emit("del %d", j)
+					total++
+				}
+			}
+		}
 		for i := 0; i < k && total < n; i++ {
 			if burst && i < 8 {
 				g.pkt++
@@ -386,15 +447,39 @@ func (w *world) dump() string {
 		P = append(P, kv{int(i), ref(h)})
 	}
 	var O []kv
+	ready := w.v.VerifHostmapPendingReady()
 	for id, h := range refs {
-		addrs, local, remote, rl := nebula.VerifHostmapFields(h)
+		addrs, local, remote, _ := nebula.VerifHostmapFields(h)
 		an := make([]int, len(addrs))
 		for i, a := range addrs {
 			an[i] = numOf(a)
 		}
-		O = append(O, kv{id, fmt.Sprintf("%d:%d:%s:%s", local, remote, natList(an), natList(rl))})
+		relaysTo, byAddr, byIdx := nebula.VerifHostmapRelayState(h)
+		var bi, ba []kv
+		for k, r := range byIdx {
+			bi = append(bi, kv{int(k), fmt.Sprintf("%d/%d/%d/%d", k, numOf(r.PeerAddr), r.Type, r.State)})
+		}
+		for k, r := range byAddr {
+			ba = append(ba, kv{numOf(k), fmt.Sprintf("%d/%d/%d/%d", numOf(k), r.LocalIndex, r.Type, r.State)})
+		}
+		rl := func(items []kv) string {
+			if len(items) == 0 {
+				return "-"
+			}
+			sort.Slice(items, func(i, j int) bool { return items[i].k < items[j].k })
+			out := make([]string, len(items))
+			for i, it := range items {
+				out[i] = it.v
+			}
+			return strings.Join(out, ",")
+		}
+		rt := make([]int, len(relaysTo))
+		for i, a := range relaysTo {
+			rt[i] = numOf(a)
+		}
+		O = append(O, kv{id, fmt.Sprintf("%d:%d:%s:%s:%s:%s:%s", local, remote, natList(an), hlib.B(ready[h]), rl(bi), rl(ba), natList(rt))})
 	}
-	return strings.Join([]string{sect("H", H), sect("M", M), sect("I", I), sect("R", R), sect("L", L), sect("V", V), sect("P", P), sect("O", O)}, "|")
+	return strings.Join([]string{sect("H", H), sect("M", M), sect("I", I), sect("R", R), sect("L", L), sect("V", V), sect("P", P), fmt.Sprintf("N %d", len(w.objs)), sect("O", O)}, "|")
 }
 
 func newExec(t *testing.T) func([]string) string {
@@ -532,20 +617,30 @@ func newExec(t *testing.T) func([]string) string {
 			}
 			return "prim " + hlib.B(w.v.VerifHostmapMakePrimary(h))
 		case "relay":
-			if len(a) != 4 {
+			if len(a) != 6 {
 				return "bad-op"
 			}
 			h := w.obj(a[1])
-			return withStream(a[3], func() string {
+			return withStream(a[5], func() string {
 				if h == nil {
 					return "bad-op"
 				}
-				idx, err := nebula.AddRelay(w.v.L, h, w.v.Main, addrOf(hlib.Atoi(a[2])), nil, nebula.TerminalType, nebula.Requested)
+				idx, err := nebula.AddRelay(w.v.L, h, w.v.Main, addrOf(hlib.Atoi(a[2])), nil, hlib.Atoi(a[3]), hlib.Atoi(a[4]))
 				if err != nil {
 					return allocErr(err)
 				}
 				return fmt.Sprintf("idx %d", idx)
 			})
+		case "relayto":
+			if len(a) != 3 {
+				return "bad-op"
+			}
+			h := w.obj(a[1])
+			if h == nil {
+				return "bad-op"
+			}
+			nebula.VerifHostmapInsertRelayTo(h, addrOf(hlib.Atoi(a[2])))
+			return "ok"
 		}
 		return "bad-op"
 	}
